@@ -39,11 +39,19 @@ func widthSubst(bits int) map[string]string {
 	}
 }
 
+var qSubst = map[string]string{"re:qi": "xi", "re:ringQ": "ringX", "re:Q": "X"}
+var pSubst = map[string]string{"re:pi": "xi", "re:ringP": "ringX", "re:P": "X"}
+
 var sibGroups = []sibGroup{
 	{pkg: "utils/buffer", members: []string{"WriteUint16", "WriteUint32", "WriteUint64"}, subst: []map[string]string{widthSubst(16), widthSubst(32), widthSubst(64)}, props: []string{"C08"}, why: "scalar writers differ only by the width"},
 	{pkg: "utils/buffer", members: []string{"WriteUint16Slice", "WriteUint32Slice", "WriteUint64Slice"}, subst: []map[string]string{widthSubst(16), widthSubst(32), widthSubst(64)}, props: []string{"C08"}, why: "slice writers differ only by the width"},
 	{pkg: "utils/buffer", members: []string{"ReadUint16", "ReadUint32", "ReadUint64"}, subst: []map[string]string{widthSubst(16), widthSubst(32), widthSubst(64)}, props: []string{"C08"}, why: "scalar readers differ only by the width"},
 	{pkg: "utils/buffer", members: []string{"ReadUint16Slice", "ReadUint32Slice", "ReadUint64Slice"}, subst: []map[string]string{widthSubst(16), widthSubst(32), widthSubst(64)}, props: []string{"C08"}, why: "slice readers differ only by the width"},
+	{pkg: "core/rlwe", members: []string{"(Parameters).QiOverflowMargin", "(Parameters).PiOverflowMargin"}, subst: []map[string]string{qSubst, pSubst}, props: []string{"C19", "C04"}, why: "overflow margins of the Q and P bases are the same formula on their own moduli"},
+	{pkg: "core/rlwe", members: []string{"(Parameters).Q", "(Parameters).P"}, subst: []map[string]string{qSubst, pSubst}, props: []string{"C19"}, why: "moduli accessors of the two bases"},
+	{pkg: "core/rlwe", members: []string{"(Parameters).QCount", "(Parameters).PCount"}, subst: []map[string]string{qSubst, pSubst}, props: []string{"C19"}, why: "moduli counts of the two bases"},
+	{pkg: "core/rlwe", members: []string{"(Parameters).QBigInt", "(Parameters).PBigInt"}, subst: []map[string]string{qSubst, pSubst}, props: []string{"C19"}, why: "products of the moduli of the two bases"},
+	{pkg: "core/rlwe", members: []string{"(Parameters).MaxLevelQ", "(Parameters).MaxLevelP"}, subst: []map[string]string{qSubst, pSubst}, props: []string{"C19"}, why: "maximum levels of the two bases"},
 	{pkg: "ring", members: []string{"(Ring).DivFloorByLastModulusMany", "(Ring).DivRoundByLastModulusMany"}, subst: []map[string]string{{"re:Floor": "MODE"}, {"re:Round": "MODE"}}, props: []string{"C02"}, why: "repeated floored / rounded division differ only by the single-step primitive"},
 }
 
@@ -206,7 +214,7 @@ func minInt(a, b int) int {
 }
 
 func init() {
-	core.Register(&core.Rule{Name: "SIBTREE", Props: []string{"C08", "C02"},
+	core.Register(&core.Rule{Name: "SIBTREE", Props: []string{"C08", "C02", "C19", "C04"},
 		Doc: "the members of each mechanical clone family (buffer.{Write,Read}Uint{16,32,64}[Slice], Ring.Div{Floor,Round}ByLastModulusMany) are token-identical after alpha-renaming and mapping of the family parameter",
 		Run: func(c *core.Ctx) []ob {
 			out := scanSibTree(c)
